@@ -11,8 +11,9 @@ RULE = (
     "re-yielded futures, junk, sync re-entry, try/except/finally, contexts and scoped-value reads, early "
     "result()); each run under all four calling conventions and several get_priority() policies on both "
     "builds and compared with a sequential reference evaluation of the same program text, at the root and "
-    "at every task's every yield. Two profiles alternate: A = shared tasks (DAGs), no reads; B = scoped-value "
-    "overrides with reads, no shared tasks. distinct = structural hash of the program; non-trivial = at "
+    "at every task's every yield. Two profiles alternate: A = shared tasks (DAGs, also waited for synchronously by tasks that did not create them) "
+    "with scoped overrides and reads everywhere except under a shared task; B = denser scoped-value overrides with "
+    "reads, no shared tasks. distinct = structural hash of the program; non-trivial = at "
     "least 2 task instances and at least 1 batch flush."
 )
 ASSUMPTIONS = [
@@ -30,7 +31,12 @@ COMMON = dict(
     lazy_modes=["ok", "ok", "ok", "raise"],
     p_try_raise=0.35,
 )
-PROFILE_A = gen.profile(p_shared=0.6, p_syncshared=0.3, **COMMON)
+PROFILE_A = gen.profile(
+    p_shared=0.6,
+    p_syncshared=0.3,
+    ctxs=["ov", "ov", "attr", "actx"],
+    **dict(COMMON, w_stmt=dict(raise_=0.15, syncitem=0.5, read=1.5, with_=1.8))
+)
 PROFILE_B = gen.profile(
     p_shared=0.0,
     ctxs=["ov", "ov", "attr", "actx"],
@@ -69,7 +75,19 @@ def run_unit(unit, progress):
         progress(i)
         cs = tl.case_seed(unit["seed"], ID, i)
         prof = PROFILE_A if i % 2 == 0 else PROFILE_B
-        prog = gen.generate(cs, prof)
+        if i % 8 == 6:
+            # a structured family the random generator rarely hits (see C07): a pending task awaited - also
+            # synchronously - by several parents that override the same scoped value, each with a reading child
+            from . import c07
+
+            prog = c07.diamond_program(random.Random(cs))
+            inc("diamond_programs")
+        else:
+            prog = gen.generate(cs, prof)
+        if prog.get("shared"):
+            # a read under a task awaited by several parents has no unique sequential answer: keep reads only
+            # in the parents and their private children
+            gen.strip_reads_under_shared(prog)
         rnd = random.Random(cs ^ 0x5A5A)
         try:
             exp_rrt = ref.evaluate(prog)
